@@ -323,6 +323,34 @@ def main(argv):
         res.count("outcome:completed", len(obs) - dropped - timed)
         for o in obs:
             res.count("pendings:%s" % o.get("pendings"))
+    # REQ send() dropped at its pipe-write await: reachable only through a sequence (REP never reads, each recv() times out)
+    rb = [{"kind": "reqbp", "transport": tr, "drop_ms": d} for tr in ("inproc", "tcp") for d in ((300,) if tier == "quick" else (5, 60, 300))]
+    robs, rlog = C.run_harness("c09", rb, PROP, tag="reqbp", timeout=300)
+    if robs is None:
+        res.obligation(False, "REQ back-pressure cancellation probe could not run: " + str(rlog)[-500:])
+    else:
+        for c, o in zip(rb, robs):
+            res.evaluations += 1
+            row = o["rows"][0]
+            if row[0] != 80:
+                res.notes.append("REQ back-pressure probe %s did not run to the end: %s" % (c, o["rows"]))
+                continue
+            res.count("reqbp:%s:%s" % (c["transport"], "send dropped while parked" if row[1] else "no send ever parked"))
+            if row[1]:
+                res.nontrivial.add("reqbp:%s:%d" % (c["transport"], c["drop_ms"]))
+                bad = None
+                if row[3] == 2:
+                    bad = ("the send() after a DROPPED send() was refused with InvalidState although nothing had been sent "
+                           "(%d requests accepted before)" % row[2])
+                elif row[3] == 9:
+                    bad = "the send() after a dropped send() failed with an unexpected error"
+                elif not row[4]:
+                    bad = "no send() completed after the peer had drained the path (socket unusable after a dropped send())"
+                if bad:
+                    res.violation({"property": PROP, "kind": "implementation violates property oracle",
+                                   "what": "REQ over %s, REP never reads, send() dropped after %d ms at its pipe-write await: %s"
+                                           % (c["transport"], c["drop_ms"], bad),
+                                   "case": c, "impl_obs": o, "harness": "c09"}, found_input=True)
     return res.finish(assumptions=[
         "tie is by outcome-set inclusion: polls of the real future and await points of the model are not 1:1; every "
         "implementation outcome must be one the model produces for some cancellation point, some bounded extra pipeline "
